@@ -3,7 +3,7 @@
    values, so everything proved about tc_new / tm_new (layout, round trip, CRC) holds for them. *)
 From Coq Require Import ZArith List Bool Lia.
 From SP Require Import Base.Result Base.Bytes Model.SpacePacket Model.PusTc Model.PusTcHist
-  Model.PusTm Model.PusTmHist.
+  Model.PusTm Model.PusTmHist Spec.SpacePacketSpec Spec.PusSpec Proofs.PusTcProofs Proofs.PusTmProofs.
 Import ListNotations.
 Open Scope Z_scope.
 
@@ -92,4 +92,32 @@ Theorem tm_from_composite_adopts h s d :
 Proof.
   unfold tm_from_composite_fields. intros N.
   destruct (ptype h =? PT_TC) eqn:E; [apply Z.eqb_eq in E; contradiction|reflexivity].
+Qed.
+
+(* ---- the layout theorems carried over to the alternative paths ---- *)
+Theorem tc_from_sp_header_layout pt sh dl service subservice apid seq source_id ack app h :
+  tc_args_valid service subservice apid seq source_id ack app ->
+  sph_new pt apid seq dl sh SF_UNSEG 0 = Ok h ->
+  exists t', tc_pack (tc_from_sp_header h service subservice app source_id ack)
+             = Ok (tc_layout service subservice apid seq source_id ack app, t') /\
+    tc_packet_len (tc_from_sp_header h service subservice app source_id ack)
+      = len (tc_layout service subservice apid seq source_id ack app).
+Proof.
+  intros V Eh.
+  destruct (tc_pack_layout _ _ _ _ _ _ _ V) as (t & t' & En & Ep & _ & _ & _ & El & _).
+  rewrite (tc_from_sp_header_is_new _ _ _ _ _ _ _ _ _ _ _ _ Eh En).
+  exists t'. split; assumption.
+Qed.
+
+Theorem tm_from_composite_layout service subservice apid seq msgcnt ref dest version stamp src :
+  tm_args_valid service subservice apid seq msgcnt ref dest version stamp src ->
+  exists t u t', tm_new service subservice stamp src apid seq msgcnt ref dest version = Ok t /\
+    tm_from_composite_fields (tm_sph t) (tm_sec t) (tm_src t) = Ok u /\
+    tm_pack u = Ok (tm_layout service subservice apid seq msgcnt ref dest version stamp src, t') /\
+    tm_packet_len u = len (tm_layout service subservice apid seq msgcnt ref dest version stamp src).
+Proof.
+  intros V.
+  destruct (tm_pack_layout _ _ _ _ _ _ _ _ _ _ V) as (t & t' & En & Ep & _ & _ & _ & El & _).
+  exists t, t, t'. split; [exact En|]. split; [exact (tm_from_composite_is_new _ _ _ _ _ _ _ _ _ _ _ En)|].
+  split; assumption.
 Qed.
